@@ -345,6 +345,19 @@ fn run_pass(ctx: &Ctx) -> Report {
                 jobs.push((si, script));
             }
         }
+        // one or two interrupted calls anywhere (every index, also on the long streams)
+        let upto_i = n.min(if thorough { 600 } else { 540 }) + 2;
+        for j in 0..upto_i {
+            let mut script = vec![RAns::Deliver(usize::MAX); j];
+            script.push(RAns::Interrupted);
+            jobs.push((si, script.clone()));
+            if j % 7 == 0 {
+                script.push(RAns::Interrupted);
+                script.push(RAns::Deliver(1));
+                script.push(RAns::Interrupted);
+                jobs.push((si, script));
+            }
+        }
         // hard error / EOF at every call index
         let upto = n.min(if thorough { 600 } else { 80 }) + 2;
         for j in 0..upto {
